@@ -526,7 +526,7 @@ def lin_diff(hi, lo):
     return frozenset((k, v) for k, v in out.items() if v != 0), ca - cb
 
 
-def r_guard_exact(F, engine, fn, specs, invariants=(), label=None):
+def r_guard_exact(F, engine, fn, specs, invariants=(), label=None, optional=False):
     """specs: list of (X, Y) value terms; the operation is in bounds iff X <= Y (over Z). Every throwing guard of fn
     must refuse exactly Y < X, or be a recognised wrap refusal, or be trivially false."""
     engine.analyze(fn, frozenset(invariants))
@@ -548,7 +548,8 @@ def r_guard_exact(F, engine, fn, specs, invariants=(), label=None):
             req = "the refusal condition is exactly the out-of-bounds condition (%s)" % " or ".join(
                 "%s %s %s" % (fmt_term(x), ">=" if st else ">", fmt_term(y)) for (x, y), st in zip(specs, strict_in))
             if f[0] not in ("<", "<="):
-                out.append(bad("R-GUARD", inst, fn.loc(cid), fn.qn, req, "refusal condition `%s` is not a bounds comparison" % fmt_fact(f)))
+                if not optional:
+                    out.append(bad("R-GUARD", inst, fn.loc(cid), fn.qn, req, "refusal condition `%s` is not a bounds comparison" % fmt_fact(f)))
                 continue
             L, R = expand(f[1], defs), expand(f[2], defs)
             # trivially false: constant on the left at least the type maximum of the right operand
@@ -586,10 +587,10 @@ def r_guard_exact(F, engine, fn, specs, invariants=(), label=None):
                 if near:
                     out.append(bad("R-GUARD", inst, fn.loc(cid), fn.qn, req,
                                    "refusal `%s` differs from the bounds condition by the constant %d" % (fmt_fact(f), d[1] - targets[near[0]][1])))
-                else:
+                elif not optional:
                     out.append(bad("R-GUARD", inst, fn.loc(cid), fn.qn, req, "refusal `%s` is not the bounds condition" % fmt_fact(f)))
     for i, (x, y) in enumerate(specs):
-        if i not in matched:
+        if i not in matched and not optional:
             out.append(bad("R-GUARD", "%s#missing:%s>%s" % (inst0, fmt_term(x), fmt_term(y)), fn.loc(fn.body), fn.qn,
                            "a guard refuses %s > %s" % (fmt_term(x), fmt_term(y)), "no throwing guard with that condition"))
     return out
